@@ -54,6 +54,15 @@ def run(ctx):
         "caps": {"capitalizations": ["ID", "URL", "HTML"]}, "title": {"struct_name_from_title": True}, "rootname": {"root": "Renamed"},
         "extra": {"extra_imports": True}, "only_models_extra": {"only_models": True, "extra_imports": True},
     }
+    # option pairs: what an option may change must not depend on the other options in force
+    TAGSETS = {"tj": ["json"], "tx": ["x", "yaml"], "tjm": ["json", "mapstructure"], "ty": ["yaml"]}
+    CONTEXTS = {"extra": {"extra_imports": True}, "only_models": {"only_models": True}, "caps": {"capitalizations": ["ID", "URL", "HTML"]}, "minsized": {"min_sized_ints": True}}
+    variants["minsized"] = {"min_sized_ints": True}
+    for cn, copts in CONTEXTS.items():
+        for tn, tags in TAGSETS.items():
+            variants["%s_%s" % (cn, tn)] = dict(copts, tags=tags)
+    variants["extra_caps"] = {"extra_imports": True, "capitalizations": ["ID", "URL", "HTML"]}
+    variants["extra_minsized"] = {"extra_imports": True, "min_sized_ints": True}
     b = Batch(ctx, "c16")
     for si, sc in enumerate(schemas):
         for vn, opts in variants.items():
@@ -118,6 +127,25 @@ def run(ctx):
                         if [x[0] for x in m] != want or len(set(x[1] for x in m)) != 1:
                             viol(si, vn, "field %s.%s has tag %r for --tags %s" % (t["name"], f["name"], f["tag"], want))
                             break
+        for cn in CONTEXTS:
+            cv, _ = sc_of[cn]
+            for tn in TAGSETS:
+                vn = "%s_%s" % (cn, tn)
+                tv, _ = sc_of[vn]
+                if erase_tags(tv) | {"package": ""} != erase_tags(cv) | {"package": ""}:
+                    a, bb = erase_tags(tv), erase_tags(cv)
+                    diff = [k for k in a if k != "package" and a[k] != bb[k]]
+                    viol(si, vn, "--tags %s changes more than struct tags when combined with %s: %s differ" % (TAGSETS[tn], cn, diff))
+        # an option pair equals the composition of its parts: capitalisations / sized ints do not change what --extra-imports adds
+        for vn, (a_, b_) in {"extra_caps": ("caps", "extra"), "extra_minsized": ("minsized", "extra")}.items():
+            pv, _ = sc_of[vn]
+            av, _ = sc_of[a_]
+            if types_only(pv) != types_only(av):
+                viol(si, vn, "--extra-imports changes the type declarations when combined with %s" % a_)
+            ya = [k for k in pv.get("bodies", {}) if k.endswith("UnmarshalYAML")]
+            ja = [k for k in pv.get("bodies", {}) if k.endswith("UnmarshalJSON")]
+            if len(ya) != len(ja):
+                viol(si, vn, "%s: %d UnmarshalYAML for %d UnmarshalJSON" % (vn, len(ya), len(ja)))
         # naming options: only identifiers change
         for vn in ("caps", "title", "rootname"):
             nv_, _ = sc_of[vn]
